@@ -570,6 +570,7 @@ func partC17Race(a *hcli.Args, u *schema.Universe) {
 			}
 		}
 	}
+	raceRegistry()
 	fmt.Println("race pass done:", rounds, "rounds")
 	_ = os.Stdout
 	_ = sort.Strings
